@@ -4,6 +4,7 @@ mod ledger;
 mod libtap;
 mod oracle_cred;
 mod oracle_rtt;
+mod oracle_tap;
 mod oracle_tx;
 mod oracle_twin;
 mod plan;
